@@ -226,12 +226,12 @@ CHECKS = {
     "C02": dict(
         level="exploration",
         rule=("real TCP master client and real TCP outstation server on loopback (public API only) on a multi-threaded tokio runtime in real time, joined by a byte-level proxy that re-chunks both streams (whole / bytewise / 1-7 / 1-300 octets, random pauses) and cuts the connection after a random number of further octets, drops connections for 100-350 ms, or closes its listener for 100-400 ms so that connection attempts are refused; two user threads update all eight point types in transactions with unique values while the master sends CROB and analog-output commands that the outstation application turns into output-status updates; "
-              "unsolicited on/off, periodic polls on/off, event buffers 4 or 250 per type, minimal or default buffer sizes, both link error modes. After the stimulus stops: convergence within 40 s (last record of every point == current database value; every event not reported as overflow-discarded by update2 delivered as an event), every record ever received equals a value the point really had (ledger updated inside the same database transaction); every analog-output command carries a unique value: reported success => executed exactly once, never executed twice"),
+              "unsolicited on/off, periodic polls on/off, event buffers 4 or 250 per type, minimal or default buffer sizes, both link error modes; in half of the scenarios binary and double-bit events use the relative-time variations (g2v3 / g4v3) and time stamps are unique but not monotonic (every third one about 40 s ahead), and the master issues seven-header static READs while the updaters commit back to back. After the stimulus stops: convergence within 40 s (last record of every point == current database value; every event not reported as overflow-discarded by update2 delivered as an event), every record ever received equals a value the point really had (ledger updated inside the same database transaction); every analog-output command carries a unique value: reported success => executed exactly once, never executed twice"),
         runs=[dict(check="c02", timeout_s=1500),
               # the same real-TCP workload under AddressSanitizer and ThreadSanitizer (nightly, -Zbuild-std for TSan)
               dict(check="c02", flavor="asan", tier="thorough", scale=0.1, timeout_s=600),
               dict(check="c02", flavor="tsan", tier="thorough", scale=0.1, timeout_s=600)],
-        required=["converged", "records_match_history", "events_delivered", "events_overflow_discarded", "commands_executed", "connection_cuts", "converged_after_cuts", "converged_after_overflow", "commands_ok_executed_once", "connection_refusal_periods"],
+        required=["converged", "records_match_history", "events_delivered", "events_overflow_discarded", "commands_executed", "connection_cuts", "converged_after_cuts", "converged_after_overflow", "commands_ok_executed_once", "connection_refusal_periods", "scenarios_with_relative_time_events", "multi_header_static_reads_ok"],
         thorough_scale=10.0,
         abnormal_exit_is_violation=True,
         assumptions=HARNESS_TRUST + ["real-time run: the 40 s convergence budget is three orders of magnitude above the observed convergence time on loopback; a firing is reported as a violation"],
